@@ -65,6 +65,12 @@ func VerifC04LogsItems() {
 	maxSize := vNondetInt("max_size")
 	vAssume(maxSize >= 1 && maxSize <= 1<<30)
 	sz := &sizer.LogsCountSizer{}
+	// the sending queue sizes every request with ITS sizer before the batcher sees it (the legacy
+	// batcher always splits by items): none / requests / items / bytes
+	if k := vChoice("sized-by-the-queue-with", 4); k > 0 {
+		st := []RequestSizerType{RequestSizerTypeRequests, RequestSizerTypeItems, RequestSizerTypeBytes}[k-1]
+		_ = NewLogsQueueBatchSettings().Sizers[st].Sizeof(req)
+	}
 	res, err := req.MergeSplit(context.Background(), maxSize, RequestSizerTypeItems, r2)
 	vAssert(err == nil, "logs-items/no-error")
 	vc04CheckLogs(res, in, maxSize, sz, "logs-items")
